@@ -450,9 +450,69 @@ func planFor(prop, tier string) (*plan, error) {
 			sl := &pg.Parallel{Conc: "", Items: []pg.Item{{Kind: "slice", Idx: true, Err: true}}}
 			ps = append(ps, parProg(sl, "over:PAR-slice5-default"))
 		}
+		// capacity: `limit` runnable functions must execute at the same time, whatever else has been enqueued
+		{
+			a := &pg.Parallel{Conc: "expr", Items: []pg.Item{{Kind: "slice", Idx: true, Err: true, End: &pg.End{}}, {Kind: "task"}}}
+			ps = append(ps, parProg(a, "cap:slice-end+task"))
+			b := &pg.Parallel{Conc: "expr", Items: []pg.Item{{Kind: "map", Err: true, End: &pg.End{Err: true}}, {Kind: "task", Err: true}}}
+			ps = append(ps, parProg(b, "cap:map-end+task"))
+			c := &pg.Parallel{Conc: "expr", Items: []pg.Item{{Kind: "task"}, {Kind: "task", Err: true}}}
+			ps = append(ps, parProg(c, "cap:task+task"))
+			ps = append(ps, flowProg(exprConc(pg.Shape("fork")), "cap:fork"))
+			for _, f := range pg.WithPredFallback(pg.Shape("fork"), []string{"none", "shared"}, 1) {
+				if !hasFallback(f) {
+					ps = append(ps, flowProg(exprConc(f), "cap:fork+pred"))
+				}
+			}
+		}
+		// predicates are user functions too
+		for _, n := range []string{"fork", "indep3"} {
+			for _, f := range pg.WithPredFallback(pg.Shape(n), []string{"none", "shared"}, 1) {
+				if !hasFallback(f) {
+					ps = append(ps, flowProg(exprConc(f), "PF:"+n))
+				}
+			}
+		}
 		pl.progs = numIDs(ps)
 		pl.scen = func(p *pg.Program) []genrt.Scenario {
 			var out []genrt.Scenario
+			if strings.HasPrefix(p.Fam, "cap:") {
+				// two functions that do not depend on each other meet at a barrier (N=2)
+				var ids []string
+				if p.Par != nil {
+					for k, it := range p.Par.Items {
+						if it.Kind == "slice" || it.Kind == "map" {
+							continue
+						}
+						ids = append(ids, pg.ItemID(p.ID, k))
+					}
+					sc := base(p, 2)
+					if len(ids) == 1 {
+						// the single element of the collection is the other participant
+						for k, it := range p.Par.Items {
+							if it.Kind == "slice" {
+								sc.Colls = [][]uint64{{7}}
+								ids = append(ids, pg.ItemID(p.ID, k))
+							}
+							if it.Kind == "map" {
+								sc.Maps = []map[string]uint64{{"1": 11}}
+								ids = append(ids, pg.ItemID(p.ID, k))
+							}
+						}
+					}
+					return []genrt.Scenario{withDec(sc, ids, probe.Bar)}
+				}
+				sc := base(p, 2)
+				ids = []string{pg.TaskID(p.ID, 0), pg.TaskID(p.ID, 1)}
+				scs := predCombosTrue(p, withDec(sc, ids, probe.Bar))
+				return scs
+			}
+			if strings.HasPrefix(p.Fam, "PF:") {
+				for _, n := range []int{1, 2} {
+					out = append(out, predCombos(p, base(p, n))...)
+				}
+				return out
+			}
 			if strings.HasPrefix(p.Fam, "over:") {
 				// limit+1 functions that can only all return if they run at the same time
 				n := 0
@@ -1022,6 +1082,10 @@ func planFor(prop, tier string) (*plan, error) {
 		for _, f := range pg.WithPredFallback(pg.Shape("chain2"), []string{"nonectx"}, 1) {
 			ps = append(ps, flowProg(exprConc(f), "PF:ctx"))
 		}
+		// a task without results (Invoke) with the value-less FallbackWith(), with and without a predicate
+		for _, f := range pg.WithPredFallback(pg.Shape("invoke"), []string{"none", "shared"}, 2) {
+			ps = append(ps, flowProg(exprConc(f), "PF:invoke"))
+		}
 		// every task listing order for flows with one predicate or fallback
 		for _, n := range []string{"chain2", "join"} {
 			if n == "join" && !th {
@@ -1342,6 +1406,9 @@ func planFor(prop, tier string) (*plan, error) {
 				g.Tasks[i].Instrument = true
 			}
 			ps = append(ps, flowProg(g, "INS-PF"))
+			h := g.Clone()
+			h.Instrument = false
+			ps = append(ps, flowProg(h, "INS-PF-noflow"))
 		}
 		for _, par := range pg.Pars(2, false) {
 			hasTask := false
@@ -1450,4 +1517,9 @@ func indepFlow(k int) *pg.Flow {
 		f.Tasks = append(f.Tasks, pg.Task{Out: []int{i}, Err: true})
 	}
 	return f
+}
+
+// predCombosTrue: the scenario with every predicate returning true.
+func predCombosTrue(p *pg.Program, sc genrt.Scenario) []genrt.Scenario {
+	return []genrt.Scenario{withDec(sc, preds(p), probe.True)}
 }
